@@ -6,7 +6,7 @@ ENGINES = [
      'kind_free_text': 'TLC (TLA+) explicit-state model checking of models/*.tla; the dumped labelled state graph is '
                        'replayed against the implementation: all paths up to a length and all edges (mc/tlc.py)'},
     {'name': 'crawler', 'path': 'mc/crawl.py',
-     'serves_properties': ['C01', 'C02', 'C03', 'C05', 'C06', 'C07', 'C08', 'C10', 'C12', 'C13', 'C14'],
+     'serves_properties': ['C01', 'C02', 'C03', 'C05', 'C06', 'C07', 'C08', 'C10', 'C12', 'C13', 'C14', 'C18'],
      'kind_free_text': 'in-process world (mc/world.py: real Flask app, virtual clock, snapshots) + independent MPD '
                        'reader (mc/mpd.py) + independent ISO-BMFF reader (mc/bmff.py) + synthetic media writer '
                        '(mc/synth.py); clock transition system over critical instants'},
@@ -282,5 +282,29 @@ CHECKS['C17'] = dict(
     note='Service checks are memoised on everything the service reads for that stream (sound at a fixed clock). A '
          'sampled differential restart (replay of the history from the initial store must reach the same store) '
          'guards the snapshot mechanism. The status of the management request itself is judged by C16.')
+
+CHECKS['C18'] = dict(
+    engine='crawler',
+    technique='bounded-exhaustive product of validator sessions on the real DashValidator under a deterministic driver; '
+              'exhaustive single-response fault injection (every response of a session x corruption catalogue)',
+    design_ref='DESIGN.md §7 C18',
+    text='mc/validator_driver.py runs the real DashValidator synchronously: in-process HTTP client, inline worker pool, '
+         'asyncio.sleep replaced by the virtual clock, the load/validate/sleep/refresh loop of upstream\'s tests with a '
+         '12 round bound. Accept side: 9 templates x 3 modes x option vectors at deviation level 1 (quick) / level 2 '
+         'inside the timing, DRM and event groups (thorough) over 15 options (depth incl. windows that force refreshes, '
+         'mup, start incl. a start 8 s ago and across midnight, timeline, patch, 6 DRM selections, PlayReady version, '
+         'abr, codec, base URLs, events, UTC timing, leeway, drift) on bbb, a reduced set on tears and the '
+         'multi-period stream, up to 3 clocks: only configurations the server answers with 200 are judged; the '
+         'session must terminate, raise nothing and report no error. Detect side: for 7 base sessions (vod/live x '
+         'number/timeline x clear/cenc, tears) every response of the session (addressed by URL and occurrence) is '
+         'rewritten by every applicable corruption: tfdt + one segment, sequence + 1 (not on the first segment of a '
+         'representation), trun data_offset beyond mdat, saio offset + 4, moov / mvex / trex / tkhd removed (sizes '
+         'repaired), MPD minBufferTime / profiles / availabilityStartTime / publishTime removed (the last two for '
+         'dynamic), availabilityStartTime + 1 h on a refresh, one SegmentTimeline entry dropped: >= 1 error, located '
+         'inside the owning AdaptationSet or on the MPD start tag.',
+    note='Synthetic streams are not used here: their codec-level metadata (frame rate, SPS) does not match their '
+         'timing, which the validator rightly reports. Request order inside a session is not fixed (the validator keys '
+         'elements by id()), so positions are (URL, occurrence) and the located URL is the one actually rewritten. '
+         'Accept-side signatures carry the assertion site and the message with numbers removed, not the option vector.')
 
 NOT_BUILT = {}
